@@ -9,7 +9,7 @@ of the stream double the environment answers full / empty / 1 byte / all-but-one
 
 import itertools
 
-from mc import core, items, readerharness as H
+from mc import core, items, pinned, readerharness as H
 from mc.explore import explore
 
 LEVEL = "model_checking"
@@ -47,6 +47,7 @@ def run_one(source, choices, out, cfg=None):
     return rec
 
 
+@core.guard
 def judge(case):
     out = core.Outcome()
     if case.get("family") == "sockets":
@@ -97,7 +98,8 @@ def judge_sockets(case):
         sock = SegSocket(source, segs)
         raws = []
         try:
-            rdr = RTCMReader(sock, validate=1, quitonerror=case.get("q", 0))
+            rdr = RTCMReader(sock, validate=1, quitonerror=case.get("q", 0),
+                             bufsize=case.get("bufsize", 4096))
             for _ in range(len(source) + 8):
                 if take is not None and len(raws) >= take:
                     break
@@ -211,6 +213,25 @@ def kind_cases(tier):
                                 "conns": [{"name": "m", "source": m, "segs": sa, "take": take},
                                           {"name": "o", "source": other[::1] + f["F1"]["data"], "segs": []},
                                           {"name": "m2", "source": f["F0"]["data"] + m, "segs": [2, 5]}]})
+    # small receive buffers (the wrapper's buffer bookkeeping is exercised at every multiple of
+    # bufsize) over streams where a frame is followed by bytes that would complete ANOTHER valid
+    # frame if the tail of the first one were delivered twice ("overlap baits")
+    baits = []
+    for nm, k in (("FcrcD3", 1), ("FcrcD300", 3)):  # trailers ..D3 and D3 00 02
+        first = f[nm]["data"]
+        for gp in (b"\xfa\x70", b"\x3e\xd0"):
+            g = pinned.frame(gp)  # D3 00 02 <2 payload bytes> <crc>
+            core.require(first[-k:] == g[:k], "overlap bait construction")
+            baits.append((f"{nm}+tail{k}", first + g[k:]))
+    for name, data in baits + [(f"multi{i}", m) for i, m in enumerate(multi)]:
+        for noise in range(0, 8):
+            src = b"\x00" * noise + data
+            for bs in list(range(1, 34)) + [64]:
+                out.append({"family": "sockets", "name": f"{name}/noise{noise}/bufsize{bs}", "bufsize": bs,
+                            "conns": [{"name": name, "source": src, "segs": []}]})
+                if bs in (1, 2, 3, 5, 8, 16):
+                    out.append({"family": "sockets", "name": f"{name}/noise{noise}/bufsize{bs}/7",
+                                "bufsize": bs, "conns": [{"name": name, "source": src, "segs": [7] * 40}]})
     depth = 3 if tier == "quick" else 4
     for kind in ("bytesio", "buffered"):
         for m in multi:
